@@ -45,7 +45,7 @@ def run(ctx):
 
     rng = ctx.rng
     ctx.count("spec_selfcheck_cases", S.selfcheck())
-    ctx.rule = ("case = (table of 1-5 columns of the 20 scalar types, each encrypted with its own 256-bit key with p=0.6, policy IV fixed or random, "
+    ctx.rule = ("case = (table of 1-5 columns of the 20 scalar types, each encrypted with its own 256-bit key with p=0.6, policy IV fixed or random, each column registered before prepare / between prepare and the first bind / between two binds, "
                 "1-4 rows of boundary-pool values, values re-reading the byte image of another cell of the result as their own type (p=0.35), None (p=0.2) / UNSET (p=0.05 at v4+), bound positionally or by name, protocol 3-5, "
                 "result with inline metadata or NO_METADATA + prepared result metadata); distinct by (types, encrypted flags, values, pv); "
                 "non-trivial = at least one encrypted column")
@@ -88,28 +88,29 @@ def run(ctx):
             enc_flags[rng.randrange(ncols)] = True
         iv = bytes(rng.getrandbits(8) for _ in range(16)) if rng.random() < 0.7 else None
         as_server = rng.random() < 0.8
+        nrows = rng.randint(1, 4)
+        # when each encrypted column is registered with the (shared, live) policy: before the statement is prepared, or after it -
+        # just before binding row r (r = 0: between prepare and the first bind; r > 0: between two binds of the same statement)
+        reg_at = [(-1 if rng.random() < 0.6 else rng.randrange(nrows)) if e else None for e in enc_flags]
+        wit0 = {"pv": pv, "columns": [(nm, t[0], "encrypted" if e else "plain") for nm, t, e in zip(names, types, enc_flags)],
+                "registered_before_row": reg_at}
         try:
             policy = AES256ColumnEncryptionPolicy(iv=iv) if iv is not None else AES256ColumnEncryptionPolicy()
             keys = {}
             # keys come from a per-table pool of 1..ncols keys: one key per column, one key for the whole table (the usual set-up)
             # and everything in between
             key_pool = [bytes(rng.getrandbits(8) for _ in range(32)) for _ in range(rng.choice([1, 1, 2, ncols]))]
-            for nm, t, e in zip(names, types, enc_flags):
+            for nm, e in zip(names, enc_flags):
                 if e:
                     keys[nm] = rng.choice(key_pool)
+            if rng.random() < 0.5:
+                # the policy is in use for another table already
+                policy.add_column(ColDesc(ks, table + 'x', names[0]), key_pool[0], types[0][0])
+            for nm, t, ra in zip(names, types, reg_at):
+                if ra == -1:
                     policy.add_column(ColDesc(ks, table, nm), keys[nm], t[0])
-            # the reader may be another policy object with the same keys and an IV of its own (another process, a restart): the IV
-            # that matters for reading is the one stored in front of each cell
-            reader = policy
-            if rng.random() < 0.4:
-                riv = bytes(rng.getrandbits(8) for _ in range(16)) if rng.random() < 0.5 else None
-                reader = AES256ColumnEncryptionPolicy(iv=riv) if riv is not None else AES256ColumnEncryptionPolicy()
-                for nm, t, e in zip(names, types, enc_flags):
-                    if e:
-                        reader.add_column(ColDesc(ks, table, nm), keys[nm], t[0])
-            # same column name in another table / keyspace is NOT encrypted
-            for nm in names:
-                if policy.contains_column(ColDesc(ks, table, nm)) != (nm in keys) or policy.contains_column(ColDesc(ks, table + 'x', nm)):
+            for nm, ra in zip(names, reg_at):
+                if policy.contains_column(ColDesc(ks, table, nm)) != (ra == -1) or policy.contains_column(ColDesc(ks + 'x', table, nm)):
                     raise AssertionError("contains_column(%r) wrong" % nm)
         except Exception as e:
             ctx.violation("policy-setup-raises", "configuring the policy raised %s: %s" % (type(e).__name__, e), {"types": types, "names": names})
@@ -120,20 +121,25 @@ def run(ctx):
         wire_cols = [(ks, table, nm, ('blob',) if e else t) for nm, t, e in zip(names, types, enc_flags)]
         result_md = [(ks, table, nm, G.driver_type(('blob',) if e else t)) for nm, t, e in zip(names, types, enc_flags)]
         prepared = PreparedStatement(cols, b'qid', None, 'INSERT ...', ks, pv, result_md, None, column_encryption_policy=policy)
-        hcount += 1
-        handler = type('C39Handler%d' % hcount, (_ProtocolHandler,), {"column_encryption_policy": reader})
-        if reader is not policy and any(enc_flags):
-            ctx.count("results_read_by_a_second_policy_object_with_its_own_iv")
-        nrows = rng.randint(1, 4)
         rows_canon, rows_cells = [], []
         images = []          # (type, serialized plaintext) of every value generated for this result so far
-        wit0 = {"pv": pv, "columns": [(nm, t[0], "encrypted" if e else "plain") for nm, t, e in zip(names, types, enc_flags)]}
+        had_value = [False] * ncols
         bad = False
         for _r in range(nrows):
             canon, dvals, states = [], [], []
-            for t in types:
+            try:
+                for nm, t, ra in zip(names, types, reg_at):
+                    if ra == _r:
+                        policy.add_column(ColDesc(ks, table, nm), keys[nm], t[0])
+                        ctx.count("columns_registered_after_prepare")
+            except Exception as e:
+                ctx.violation("policy-setup-raises", "add_column after prepare raised %s: %s" % (type(e).__name__, e), wit0)
+                bad = True
+                break
+            for ci, t in enumerate(types):
                 r = rng.random()
-                if r < 0.2:
+                if r < 0.2 or (reg_at[ci] is not None and reg_at[ci] > _r):
+                    # (a column that is not registered yet is left alone: the application starts writing it once it is registered)
                     canon.append(None)
                     dvals.append(None)
                     states.append('none')
@@ -143,7 +149,7 @@ def run(ctx):
                     dvals.append(UNSET_VALUE)
                     states.append('unset')
                     continue
-                canary = _r == 0 and t[0] in ('bigint', 'int', 'smallint', 'tinyint', 'varint')
+                canary = not had_value[ci] and t[0] in ('bigint', 'int', 'smallint', 'tinyint', 'varint')
                 if images and not canary and rng.random() < 0.35:
                     # a value of THIS column's type whose serialization is byte-identical to a value already in the result (same
                     # row or an earlier row, any column): the byte image is read back by the reference decoder as this type and
@@ -160,6 +166,7 @@ def run(ctx):
                         canon.append(tv)
                         dvals.append(dv)
                         states.append('val')
+                        had_value[ci] = True
                         images.append((t[0], img))
                         if st != t[0]:
                             ctx.count("values_sharing_a_byte_image_with_a_value_of_another_type")
@@ -167,7 +174,7 @@ def run(ctx):
                 for _try in range(20):
                     v = G.gen_scalar(rng, t[0])
                     if canary:
-                        # canary row: small integers first, so that a build that hands an int to bytes() (allocating that many
+                        # canary value: small integers first, so that a build that hands an int to bytes() (allocating that many
                         # bytes) is detected on this table before a huge value is bound
                         v = rng.randint(0, 64)
                     try:
@@ -178,6 +185,7 @@ def run(ctx):
                 canon.append(v)
                 dvals.append(G.to_driver(rng, t, v))
                 states.append('val')
+                had_value[ci] = True
                 try:
                     images.append((t[0], S.enc(t, v, pv)))
                 except (S.Undefined, S.SpecError):
@@ -241,6 +249,11 @@ def run(ctx):
                 else:
                     ctx.count("encrypted_values_decrypt_to_reference")
                     ctx.count("encrypted_type:" + t[0])
+                    ra = reg_at[names.index(nm)]
+                    if ra == 0:
+                        ctx.count("values_of_columns_registered_between_prepare_and_first_bind")
+                    elif ra is not None and ra > 0:
+                        ctx.count("values_of_columns_registered_between_two_binds")
                 cells.append(bvb)
             rows_canon.append((canon, states))
             rows_cells.append(cells)
@@ -248,6 +261,19 @@ def run(ctx):
                 break
         if bad:
             continue
+        # the reader may be another policy object with the same keys and an IV of its own (another process, a restart): the IV
+        # that matters for reading is the one stored in front of each cell
+        reader = policy
+        if rng.random() < 0.4:
+            riv = bytes(rng.getrandbits(8) for _ in range(16)) if rng.random() < 0.5 else None
+            reader = AES256ColumnEncryptionPolicy(iv=riv) if riv is not None else AES256ColumnEncryptionPolicy()
+            for nm, t, e in zip(names, types, enc_flags):
+                if e:
+                    reader.add_column(ColDesc(ks, table, nm), keys[nm], t[0])
+        hcount += 1
+        handler = type('C39Handler%d' % hcount, (_ProtocolHandler,), {"column_encryption_policy": reader})
+        if reader is not policy and any(enc_flags):
+            ctx.count("results_read_by_a_second_policy_object_with_its_own_iv")
         by_cipher = {}
         for cells in rows_cells:
             for c, t, e in zip(cells, types, enc_flags):
@@ -336,6 +362,7 @@ def run(ctx):
           "nulls_bound_encrypted_column": 500, "encode_and_encrypt_equal": 300,
           "results_read_by_a_second_policy_object_with_its_own_iv": 200,
           "values_sharing_a_byte_image_with_a_value_of_another_type": 300,
+          "values_of_columns_registered_between_prepare_and_first_bind": 300, "values_of_columns_registered_between_two_binds": 150,
           "results_with_identical_ciphertext_in_columns_of_different_types": 100}
     for t in TYPES:
         fl["encrypted_type:" + t] = 50
